@@ -37,6 +37,15 @@ class Program:
         self.ty_by_str = {}
         for t in self.tys.values():
             self.ty_by_str.setdefault(t['str'], t['id'])
+        # discriminants are dumped as bit patterns: give them the sign of the discriminant type
+        for t in self.tys.values():
+            if t.get('_raw_discr'):
+                vs = t['variants']
+                dt = self.tys.get(vs[0].get('discr_ty')) if vs and vs[0].get('discr_ty') is not None else None
+                if dt is not None and dt.get('signed'):
+                    half, full = 1 << (dt['bits'] - 1), 1 << dt['bits']
+                    t['var2discr'] = [d - full if d >= half else d for d in t['var2discr']]
+                    t['discr2var'] = {d: i for i, d in enumerate(t['var2discr'])}
 
     def _prep_ty(self, t):
         k = t['kind']
@@ -55,6 +64,7 @@ class Program:
         if k == 'adt':
             t['targs'] = [a['ty'] for a in t['args'] if 'ty' in a]
             if t['adt'] == 'enum':
+                t['_raw_discr'] = True
                 t['discr2var'] = {int(v['discr']): i for i, v in enumerate(t['variants'])}
                 t['var2discr'] = [int(v['discr']) for v in t['variants']]
         elif k in ('fndef', 'closure', 'coroutine'):
